@@ -305,7 +305,7 @@ fn leg_terms(ctx: &Ctx, out: &mut Out) {
         b.pin = false;
         let free = guard(|| b.redeem(&prog));
         b.pin = true;
-        if !matches!(free, Ok(Ok(f)) if f.ihr() == r.ihr()) {
+        if !matches!(free, Ok(Ok(f)) if f.ihr() == r.ihr() && f.amr() == r.amr() && f.to_vec_with_witness() == r.to_vec_with_witness()) {
             out.count("terms:skipped(annotation is not the principal typing)", 1);
             continue;
         }
